@@ -91,6 +91,8 @@ QJsonObject generate()
             o["scoped"] = true;
         if (k == 2 && chance(25))
             o["again"] = true; // setFormatter with the formatter object created last (re-applied configuration, shared singleton)
+        if ((k == 0 || k == 1 || k == 3) && chance(12))
+            o["again"] = true; // the same handler instance appended once more (a shared attribute handler / filter / sink)
         ops.append(o);
     }
     c["ops"] = ops;
@@ -127,7 +129,10 @@ std::string run(const QJsonObject &c)
     bool lowerAfterHigher = false, twoOfOneClass = false, clearedSomething = false;
     int step = 0;
     QSharedPointer<RecFormatter> lastFmt;
-    bool sameFormatterAgain = false;
+    bool sameFormatterAgain = false, sameInstanceAgain = false;
+    std::vector<QSharedPointer<RecAttr>> everAttr;
+    std::vector<QSharedPointer<RecFilter>> everFilter;
+    std::vector<QSharedPointer<RecSink>> everSink;
     for (const auto &ov : ops) {
         const QJsonObject o = ov.toObject();
         const QString op = o["op"].toString();
@@ -144,8 +149,15 @@ std::string run(const QJsonObject &c)
         if (op == "attr") {
             if (isNull) {
                 p->appendAttrHandler(AttrHandlerPtr());
+            } else if (o["again"].toBool() && !everAttr.empty()) {
+                auto h = everAttr[size_t(step) % everAttr.size()];
+                p->appendAttrHandler(h);
+                mAttr.push_back(h);
+                noteInsert(0, mAttr.size());
+                sameInstanceAgain = true;
             } else {
                 auto h = QSharedPointer<RecAttr>::create(nextId++);
+                everAttr.push_back(h);
                 ids[h.data()] = h->id;
                 p->appendAttrHandler(h);
                 mAttr.push_back(h);
@@ -154,8 +166,15 @@ std::string run(const QJsonObject &c)
         } else if (op == "filter") {
             if (isNull) {
                 p->appendFilter(FilterPtr());
+            } else if (o["again"].toBool() && !everFilter.empty()) {
+                auto h = everFilter[size_t(step) % everFilter.size()];
+                p->appendFilter(h);
+                mFilter.push_back(h);
+                noteInsert(1, mFilter.size());
+                sameInstanceAgain = true;
             } else {
                 auto h = QSharedPointer<RecFilter>::create(nextId++);
+                everFilter.push_back(h);
                 ids[h.data()] = h->id;
                 p->appendFilter(h);
                 mFilter.push_back(h);
@@ -182,8 +201,15 @@ std::string run(const QJsonObject &c)
         } else if (op == "sink") {
             if (isNull) {
                 p->appendSink(SinkPtr());
+            } else if (o["again"].toBool() && !everSink.empty()) {
+                auto h = everSink[size_t(step) % everSink.size()];
+                p->appendSink(h);
+                mSink.push_back(h);
+                noteInsert(3, mSink.size());
+                sameInstanceAgain = true;
             } else {
                 auto h = QSharedPointer<RecSink>::create(nextId++);
+                everSink.push_back(h);
                 ids[h.data()] = h->id;
                 p->appendSink(h);
                 mSink.push_back(h);
@@ -270,6 +296,7 @@ std::string run(const QJsonObject &c)
     }
     cls("target_simple", simple);
     cls("same_formatter_object_set_again", sameFormatterAgain);
+    cls("same_handler_instance_appended_again", sameInstanceAgain);
     cls("lower_class_after_higher", lowerAfterHigher);
     cls("two_of_one_class", twoOfOneClass);
     cls("cleared_nonempty_class", clearedSomething);
